@@ -181,6 +181,21 @@ Theorem C08_or_sound_split : forall (P : sproto) (count : nat) xs az e es zs e' 
 Proof. exact or_sound_split. Qed.
 Print Assumptions C08_or_sound_split.
 
+(* sigor: every challenge share must have exactly the protocol's challenge length; a share of
+   any other length (e.g. an over-long one whose first L bytes satisfy the XOR relation and
+   whose integer value suits a simulated branch) is rejected *)
+Theorem C08_or_overlong_share_rejected : forall (P : sproto) (count : nat) xs az e es zs i ei,
+  nth_error es i = Some ei -> length ei <> sp_len P ->
+  or_verify P count xs az e es zs = false.
+Proof. exact or_overlong_share_rejected. Qed.
+Print Assumptions C08_or_overlong_share_rejected.
+
+Theorem C08_or_accept_share_lengths : forall (P : sproto) (count : nat) xs az e es zs,
+  or_verify P count xs az e es zs = true ->
+  length e = sp_len P /\ Forall (fun ei => length ei = sp_len P) es.
+Proof. exact or_accept_share_lengths. Qed.
+Print Assumptions C08_or_accept_share_lengths.
+
 (* ---------------- Fiat–Shamir ---------------- *)
 
 (* the compiled verifier accepts (a,e,z) in context c iff e is the challenge derived from
